@@ -196,7 +196,31 @@ func modelChecks(c *vlib.Check, thorough bool) cexSet {
 		}
 		c.AddStates(r.Distinct, r.Generated)
 	}
-	c.Set("tlc_counterexamples_pinned_sse", out)
+	// the half-repaired design (complete and closed in two critical sections): CompleteLast must be
+	// refuted, everything else must hold - the model tells the three designs apart
+	sp, err := vlib.RunTLC(vlib.TLCOpts{Module: "Stream", Config: "MC_Stream_split.cfg", Workers: 1,
+		Scratch: vlib.Work("C12", "mc-split-CompleteLast"), Timeout: 10 * time.Minute})
+	if err != nil {
+		vlib.Infra("tlc: %v", err)
+	}
+	if sp.OK || !strings.Contains(sp.Output, "Invariant CompleteLast is violated") {
+		vlib.Infra("specification regression: the split-close design (CloseAtomic = FALSE) no longer violates CompleteLast:\n%s", tailStr(sp.Output, 1500))
+	}
+	out["CompleteLast(split-close)"] = counterexample(sp.Output)
+	c.AddStates(sp.Distinct, sp.Generated)
+	so, err := vlib.RunTLC(vlib.TLCOpts{Module: "Stream", Config: "MC_Stream_split.cfg", Workers: 2,
+		CfgEdit: func(cfg string) string {
+			return strings.Replace(cfg, "INVARIANT CompleteLast", "INVARIANTS TypeOK NoRace NoSplice NoUseAfterFinish InOrder PreFirst", 1)
+		},
+		Scratch: vlib.Work("C12", "mc-split-rest"), Timeout: 10 * time.Minute})
+	if err != nil {
+		vlib.Infra("tlc: %v", err)
+	}
+	if !so.OK {
+		vlib.Infra("specification regression: the split-close design violates more than CompleteLast:\n%s", so.Violation)
+	}
+	c.AddStates(so.Distinct, so.Generated)
+	c.Set("tlc_counterexamples_deviating_designs", out)
 	return out
 }
 
@@ -252,7 +276,7 @@ func selfTest(st *tlcStats) {
 		mk("mm", 0, false, "clean", 1, bnd, hdr, ini("f")),                                                 // closing boundary omitted without deferred payloads
 	}
 	all := append(append([]*Scenario{}, good...), bad...)
-	acc := accepted(all, true, true, "selftest", st)
+	acc := accepted(all, true, true, true, "selftest", st)
 	for i, s := range good {
 		if !acc[s] {
 			vlib.Infra("StreamTrace self-test: well-formed trace %d rejected", i)
@@ -367,7 +391,7 @@ func judge(c *vlib.Check, scs []*Scenario, kids []*child, st *tlcStats) {
 		}
 		if g := s.Gate; s.Hold != "" && g != nil {
 			gates = append(gates, map[string]any{"hold": s.Hold, "interval_ns": s.IntervalNs, "held": g.Held, "other_write_entered_while_held": g.Met,
-				"overlaps": g.Overlaps, "after_return": g.AfterReturn})
+				"overlaps": g.Overlaps, "after_return": g.AfterReturn, "after_final": g.AfterFinal, "kind": s.Kind})
 			var ov []string
 			for _, o := range g.Overlaps {
 				if strings.Contains(o, "ping") {
@@ -377,7 +401,16 @@ func judge(c *vlib.Check, scs []*Scenario, kids []*child, st *tlcStats) {
 			if len(ov) > 0 {
 				c.Violate(keyRaceWrite, fmt.Sprintf("gate writer (hold=%s): while one goroutine's call on the ResponseWriter was in progress another one entered (in progress|entering): %v - TLC's counterexample to NoRace / NoSplice replayed deterministically\n%s", s.Hold, ov, describe(s)), s)
 			}
-			if len(g.AfterReturn) > 0 {
+			if len(g.AfterFinal) > 0 {
+				if s.Kind == "sse" {
+					c.Violate(keyLatePing, fmt.Sprintf("gate writer (hold=%s): after the Write of `event: complete` had entered, further Write calls arrived: %v\n%s", s.Hold, g.AfterFinal, describe(s)), s)
+				} else {
+					c.Violate("mm:write-after-closing-boundary", fmt.Sprintf("gate writer (hold=%s): after the Write of the closing delimiter had entered, further Write calls arrived: %v\n%s", s.Hold, g.AfterFinal, describe(s)), s)
+				}
+			}
+			if len(g.AfterReturn) > 0 && s.Kind == "mm" {
+				c.Violate("mm:responsewriter-used-after-handler-returned", fmt.Sprintf("gate writer (hold=%s): after transport.MultipartMixed.Do had returned the ResponseWriter was still used: %v\n%s", s.Hold, g.AfterReturn, describe(s)), s)
+			} else if len(g.AfterReturn) > 0 {
 				c.Violate(keyRaceFinish, fmt.Sprintf("gate writer (hold=%s): after transport.SSE.Do had returned the ResponseWriter was still used: %v - TLC's counterexample to CompleteLast / NoUseAfterFinish replayed deterministically\n%s", s.Hold, g.AfterReturn, describe(s)), s)
 			}
 			if s.Hold != "return" && !g.Held && !s.Crashed {
@@ -405,7 +438,7 @@ func judge(c *vlib.Check, scs []*Scenario, kids []*child, st *tlcStats) {
 	c.Set("gate_replays", gates)
 
 	// TLC: strict first, then the deviation-tolerant configurations
-	strict := accepted(live, true, true, "strict", st)
+	strict := accepted(live, true, true, true, "strict", st)
 	var rej []*Scenario
 	okByClass := map[string]int{}
 	pings, batches, cuts := 0, 0, 0
@@ -436,8 +469,8 @@ func judge(c *vlib.Check, scs []*Scenario, kids []*child, st *tlcStats) {
 	c.Set("strict_rejected", len(rej))
 	c.Set("nonvacuity", map[string]int{"ping_runs_in_accepted_streams": pings, "incremental_batches_of_2_or_more": batches, "cut_streams_accepted": cuts})
 
-	stage := func(in []*Scenario, lock, stop bool, tag string, keys ...string) []*Scenario {
-		acc := accepted(in, lock, stop, tag, st)
+	stage := func(in []*Scenario, lock, stop, atomic bool, tag string, keys ...string) []*Scenario {
+		acc := accepted(in, lock, stop, atomic, tag, st)
 		var rest []*Scenario
 		n := 0
 		for _, s := range in {
@@ -445,7 +478,7 @@ func judge(c *vlib.Check, scs []*Scenario, kids []*child, st *tlcStats) {
 				n++
 				s.Verdict = tag
 				for _, k := range keys {
-					c.Violate(k, "the token sequence is a behaviour of the model of the pinned sse.go only (LockWrites="+fmt.Sprint(lock)+", StopKA="+fmt.Sprint(stop)+"), not of the property\n"+describe(s), s)
+					c.Violate(k, "the token sequence is a behaviour of a DEVIATING design of Stream.tla only (LockWrites="+fmt.Sprint(lock)+", StopKA="+fmt.Sprint(stop)+", CloseAtomic="+fmt.Sprint(atomic)+"), not of the property\n"+describe(s), s)
 				}
 			} else {
 				rest = append(rest, s)
@@ -455,9 +488,11 @@ func judge(c *vlib.Check, scs []*Scenario, kids []*child, st *tlcStats) {
 		c.Set("explained_only_by_"+tag, n)
 		return rest
 	}
-	rest := stage(rej, true, false, "late-ping", keyLatePing)
-	rest = stage(rest, false, true, "splice", keySplice)
-	rest = stage(rest, false, false, "late-ping+splice", keyLatePing, keySplice)
+	// (locked, stopped, but `complete` and `closed` in two critical sections) - a ping parked on mu lands after `complete`
+	rest := stage(rej, true, true, false, "late-ping-before-close", keyLatePing)
+	rest = stage(rest, true, false, true, "late-ping", keyLatePing)
+	rest = stage(rest, false, true, true, "splice", keySplice)
+	rest = stage(rest, false, false, true, "late-ping+splice", keyLatePing, keySplice)
 	sort.Slice(rest, func(i, j int) bool { return len(rest[i].Toks) < len(rest[j].Toks) })
 	for i, s := range rest {
 		s.Verdict = "unexplained"
